@@ -83,7 +83,7 @@ def run(chk):
         steps = (100000 + 7777 * i) if (quick or i >= 3) else (10000000 + 7777 * i)
         n = lines_of(run_harness(yr, ["soak-record", chk.seed * 10 + i, steps, tf, "small" if quick else "full", subj], timeout=3000))[0]["events"]
         return (tf, n, steps)
-    for job in parallel([(i, sj) for i in (range(2) if quick else [0, 1, 2, 3, 4]) for sj in SOAK]   # thorough: three 1e7-step runs + the two 1e5-step ones, rec, nproc=8):
+    for job in parallel([(i, sj) for i in (range(2) if quick else [0, 1, 2, 3, 4]) for sj in SOAK], rec, nproc=8):   # thorough: three 1e7-step runs + two 1e5-step ones
         jobs.append(job)
 
     def val(job):
